@@ -21,7 +21,8 @@ pub const ENTRY: Entry = Entry {
            Invariants in every state: orientation()/size()/bounding_box() agree with the last orientation set; device MADCTL == \
            specification encoding with colour/refresh bits preserved; private state == that of a freshly built twin with that \
            orientation; a probe drawing program (corners, clipped fills, clear, mixed in/out draw_iter) produces the same command \
-           trace as on the twin and controller memory == canvas. Non-trivial = states reached by at least one set_orientation.",
+           trace as on the twin and controller memory == canvas. Second leg (E2): every program of length 3 interleaving the 8 \
+           orientation changes with 5 drawing calls on one display, step-refined against the canvas. Non-trivial = states reached by at least one set_orientation.",
     assumptions: &["reference controller + canvas", "equality of the complete private state with the twin transfers C01/C02 to all later drawing (DESIGN 2.6)"],
     run,
 };
@@ -212,7 +213,63 @@ fn run(ctx: &Ctx) -> Part {
             }
         }
     }
-    let bounds = json!({"roots": n_roots, "actions": 8, "max_depth": 4, "engine": "stateright 0.31 BFS, 1 thread and 16 threads compared"});
+    // ---- leg 2: all programs of length <= 3 that interleave orientation changes with drawing, on one
+    // display, checked step by step against the canvas (memory persists across the orientation change)
+    if acc.viols.is_empty() {
+        use rayon::prelude::*;
+        let cfgs: Vec<Cfg> = {
+            let mut v = Vec::new();
+            for (fw, fh, win) in [(4u16, 3u16, (2u16, 1u16, 1u16, 2u16)), (3, 5, (2, 3, 0, 2)), (4, 3, (3, 2, 1, 0))] {
+                for o in [0u8, 3, 5, 6] {
+                    for tr in [Transport::RecSerial, Transport::Par8] {
+                        if matches!(tr, Transport::Par8) && o != 3 {
+                            continue;
+                        }
+                        let mut c = Cfg::tiny(fw, fh, false, tr, win, o);
+                        c.bgr = o % 2 == 1;
+                        c.refresh = o % 4;
+                        v.push(c);
+                    }
+                }
+            }
+            v
+        };
+        let a2 = cfgs
+            .par_iter()
+            .fold(Acc::new, |mut acc, cfg| {
+                let mut alpha: Vec<Op> = (0..8).map(Op::SetOrientation).collect();
+                alpha.push(Op::Clear { c: 0x0003 });
+                alpha.push(Op::SetPixel { x: 0, y: 0, c: 0x0111 });
+                alpha.push(Op::FillSolid { r: Rect { x: -1, y: 0, w: 3, h: 9 }, c: 0x0222 });
+                alpha.push(Op::DrawIter(Pixels::List(vec![(0, 0, 0x0331), (1, 0, 0x0332), (9, 9, 0x0333), (0, 1, 0x0334)])));
+                alpha.push(Op::FillContiguous { r: Rect { x: 0, y: -1, w: 2, h: 3 }, colors: Colors::Coded { base: 0x0400, len: None } });
+                for a in &alpha {
+                    for b in &alpha {
+                        for c in &alpha {
+                            let hist = [a.clone(), b.clone(), c.clone()];
+                            // set_pixel(0,0) is in range under every orientation of these windows
+                            acc.evaluations += 1;
+                            acc.transitions += 3;
+                            acc.traces += 1;
+                            match check_history(cfg, &hist, &Checks::ALL) {
+                                Ok(run) => {
+                                    acc.states += (run.state_keys.iter().collect::<std::collections::BTreeSet<_>>().len() as u64).min(1);
+                                }
+                                Err((f, _)) => acc.violation(violation(ctx, cfg, &hist, "all", &f)),
+                            }
+                            acc.count("mixed_programs", 1);
+                        }
+                    }
+                }
+                acc
+            })
+            .reduce(Acc::new, Acc::merge);
+        let st = acc.states;
+        acc = acc.merge(a2);
+        acc.states = st; // the closure's state count stays the reported one
+    }
+    let bounds = json!({"roots": n_roots, "actions": 8, "max_depth": 4, "engine": "stateright 0.31 BFS, 1 thread and 16 threads compared",
+        "mixed_programs": "all programs of length 3 over {set_orientation x8, clear, set_pixel, clipped fill_solid, mixed in/out draw_iter, clipped fill_contiguous} on 15 configurations"});
     let mut part = Part::new(ctx, acc, bounds, true, t0.elapsed().as_secs_f64());
     part.acc.n_outcomes = part.acc.states;
     part
